@@ -14,6 +14,9 @@ for pid in ids:
         na.append({"property_id": pid, "reason": "check not built yet (the Lean model and theorems exist under design/spikes; not claimed until wired to a check)"})
         continue
     m = importlib.import_module(f"harness.props.{pid.lower()}")
+    if not getattr(m, "READY", False):
+        na.append({"property_id": pid, "reason": "check under construction (module exists but is not yet marked READY); not claimed"})
+        continue
     checks.append({
         "property_id": pid,
         "quick_cmd": f"./check {pid} --tier quick",
@@ -28,7 +31,7 @@ for pid in ids:
     })
 man = {
     "version": 1,
-    "setup_cmd": "cd lean && lake build NauyacaVerif nvdriver",
+    "setup_cmd": "/venv/bin/python -m harness.extract --write && cd lean && lake build NauyacaVerif nvdriver",
     "hooks": {"guard": "NAUYACA_VERIF", "enable": "no source hooks: all instrumentation is done from outside (substituted transports, event loop, sqlite3 shim, handlers); the checks set NAUYACA_VERIF=1 for uniformity",
               "baseline_off_cmd": "cd /repo && /venv/bin/python -m pytest -q -p no:cacheprovider --timeout=900", "source_commits": [], "add_only": True},
     "engines": [{"name": "lean4-proof+correspondence", "path": "lean/", "serves_properties": [c["property_id"] for c in checks],
